@@ -114,3 +114,198 @@ class OpenForWriting(Contract):
     got = pg.io.readfile('/mem/c05_replay_x.txt')
     return dict(outcome='reproduced' if got != 'short' else 'not-reproduced',
                 detail=f'write "a long first content", then "short"; read back {got!r}')
+
+
+# ---------------------------------------------------------------------------
+# Codec kernel: from_json(to_json(v)) on sequences, children abstract.
+#
+# Children are abstract values identified by ids; TJ / FJ stand for the JSON
+# encoding of a child and the decoding of a child's JSON.  Induction hypothesis
+# (A-INDUCTION): FJ(TJ(x)) == x for every child x.  The real bodies of to_json
+# and from_json run on a symbolic-length list / tuple of such children; their
+# recursive calls on children are answered by TJ / FJ.  `resolve_typenames` is
+# the identity on these trees (A-RESOLVE: a list holds no '_type' key itself;
+# what it does inside children is part of FJ).
+
+from pyglove.core.utils import json_conversion as jc
+from pyvc.spec import implies, iff, forall_range
+from pyvc.values import SSeq, PList
+from pyvc import absobj, axioms
+import ast as _ast
+
+JC = 'pyglove.core.utils.json_conversion'
+TJ = z3.Function('to_json_child', z3.IntSort(), z3.IntSort())
+FJ = z3.Function('from_json_child', z3.IntSort(), z3.IntSort())
+MARK = z3.Int('json_id_of_tuple_marker_string')
+
+
+class Val:
+  """Marker class of an abstract child value."""
+
+
+class JVal:
+  """Marker class of an abstract child JSON value."""
+
+
+def _is_ref(v, cls):
+  return isinstance(v, SObj) and v.cls is cls and absobj.ref_id(v) is not None
+
+
+def _jseq(ids, kind='list'):
+  arr = z3.K(z3.IntSort(), z3.IntVal(0))
+  for i, z in enumerate(ids):
+    arr = z3.Store(arr, i, z)
+  return SSeq(arr, z3.IntVal(len(ids)), lambda z: absobj.ref(JVal, z), absobj.ref_id, kind, z3.IntSort())
+
+
+def _codec_policy(policy):
+  def to_json_h(interp, frame, args, kwargs):
+    x = interp.resolve(args[0])
+    if _is_ref(x, Val):
+      return absobj.ref(JVal, TJ(absobj.ref_id(x)))
+    return interp.call_function(jc.to_json, list(args), dict(kwargs))
+
+  def from_json_h(interp, frame, args, kwargs):
+    x = interp.resolve(args[0])
+    if _is_ref(x, JVal):
+      return absobj.ref(Val, FJ(absobj.ref_id(x)))
+    return interp.call_function(jc.from_json, list(args), dict(kwargs))
+
+  policy.contracts[f'{JC}:to_json'] = to_json_h
+  policy.contracts[f'{JC}:from_json'] = from_json_h
+  policy.contracts[f'{JC}:resolve_typenames'] = lambda interp, frame, args, kwargs: args[0]
+
+  def compare_any(interp, op, a, b, frame):
+    if op not in (_ast.Eq, _ast.NotEq):
+      return NotImplemented
+    for x, y in ((a, b), (b, a)):
+      if _is_ref(x, JVal) and isinstance(y, str) and y == jc.JSONConvertible.TUPLE_MARKER:
+        z = absobj.ref_id(x) == MARK
+        return SBool(z if op is _ast.Eq else z3.Not(z))
+    return NotImplemented
+  policy.handlers[('compare_any',)] = compare_any
+
+  def marker_plus(interp, op, a, b):
+    if op is _ast.Add and list(a) == [jc.JSONConvertible.TUPLE_MARKER]:
+      return axioms.seq_concat(interp, _jseq([MARK]), b)
+    return NotImplemented
+  policy.handlers[('binop', list, SSeq)] = marker_plus
+  policy.handlers[('binop', PList, SSeq)] = marker_plus
+  policy.handlers[('identical',)] = absobj.identical_handler
+
+
+def json_roundtrip(value):
+  return jc.from_json(jc.to_json(value))
+
+
+def _same(r, v, kind):
+  """z3: r is a sequence of `kind` holding exactly v's children, in order."""
+  if not isinstance(r, SSeq) or r.kind != kind:
+    return z3.BoolVal(False)
+  j = z3.Int('sj')
+  return z3.And(r.len == v.len, z3.ForAll([j], z3.Implies(
+      z3.And(j >= 0, j < v.len), z3.Select(r.arr, j) == z3.Select(v.arr, j))))
+
+
+def _first_encodes_as_marker(v):
+  return z3.And(v.len > 0, TJ(z3.Select(v.arr, 0)) == MARK)
+
+
+class _Codec(Contract):
+  prop = 'C05'
+  target = f'{JC}:to_json'
+  inline = (f'{JC}:to_json', f'{JC}:from_json')
+  fn = staticmethod(json_roundtrip)
+  kind = 'list'
+  native_refuter = True
+  branch_mbqi = False
+  branch_timeout_ms = 1500
+  # the scope of the native search used when the solver leaves a clause open
+  samples = ()
+
+  def setup_policy(self, policy):
+    _codec_policy(policy)
+
+  def inputs(self, b):
+    x = z3.Int('cx')
+    b.path.assume(z3.ForAll([x], FJ(TJ(x)) == x), check=False)
+    return dict(value=absobj.ref_seq(b, 'value', Val, kind=self.kind)), {}
+
+  def drive(self, interp, pyf, args, env, check):
+    return interp.call_function(self.fn, [], dict(args))
+
+  def excluded(self, value):
+    raise NotImplementedError
+
+  def replay(self, obligation, m):
+    v = m['value']
+    restricted = 'unless' in obligation or 'only' in obligation
+    if restricted and self.excluded(v):
+      return dict(outcome='not-reproduced', detail='input outside the clause')
+    try:
+      got = jc.from_json(jc.to_json(v))
+    except Exception as e:  # pylint: disable=broad-except
+      return dict(outcome='reproduced', detail=f'from_json(to_json({v!r})) raises {type(e).__name__}: {e}')
+    ok = type(got) is type(v) and got == v
+    return dict(outcome='not-reproduced' if ok else 'reproduced', detail=f'from_json(to_json({v!r})) == {got!r}')
+
+  def small_models(self):
+    from pyvc.contracts import Model
+    for v in self.samples:
+      yield Model(dict(value=v), {})
+
+
+@register
+class CodecList(_Codec):
+  """from_json(to_json(l)) is a list with the same children, for every list l
+  of round-tripping children -- proved for every l whose first child does not
+  encode as the tuple marker; the unrestricted clauses are stated too."""
+  name = 'codec/list/roundtrip'
+  kind = 'list'
+  raises = {ValueError: ('only_on_marker_collision', 'never')}
+  samples = ([], [1], [1, 'a', None], ['__tuple__', 1], ['__tuple__'], [[1], [2]])
+
+  def excluded(self, v):
+    return bool(v) and v[0] == jc.JSONConvertible.TUPLE_MARKER
+
+  @direct
+  def ensures_same_list_unless_first_child_encodes_as_tuple_marker(self, interp, env):
+    v, r = env['value'], interp.resolve(env['result'])
+    return z3.Implies(z3.Not(_first_encodes_as_marker(v)), _same(r, v, 'list'))
+
+  @direct
+  def ensures_same_list(self, interp, env):
+    return _same(interp.resolve(env['result']), env['value'], 'list')
+
+  @direct
+  def raises_only_on_marker_collision(self, interp, env):
+    return _first_encodes_as_marker(env['value'])
+
+  @direct
+  def raises_never(self, interp, env):
+    return z3.BoolVal(False)
+
+
+@register
+class CodecTuple(_Codec):
+  """from_json(to_json(t)) is a tuple with the same children -- proved for
+  every non-empty t; the unrestricted clauses are stated too."""
+  name = 'codec/tuple/roundtrip'
+  kind = 'tuple'
+  raises = {ValueError: ('only_for_the_empty_tuple', 'never')}
+  samples = ((), (1,), (1, 'a', None), ('__tuple__', 1), ((1,), (2,)))
+
+  def excluded(self, v):
+    return len(v) == 0
+
+  @direct
+  def ensures_same_tuple(self, interp, env):
+    return _same(interp.resolve(env['result']), env['value'], 'tuple')
+
+  @direct
+  def raises_only_for_the_empty_tuple(self, interp, env):
+    return env['value'].len == 0
+
+  @direct
+  def raises_never(self, interp, env):
+    return z3.BoolVal(False)
